@@ -407,6 +407,8 @@ def run(ctx):
         _run(ctx, sp, pool, clock, html_sink, ConsoleProgressObserver, HtmlProgressObserver, IPythonProgressObserver)
     finally:
         sp.time = real_time_mod
+    import translate_progress
+    translate_progress.check(ctx)     # State / _get_progress_string / _do_render compiled from the source and linked to the models by theorems
 
 
 def make_obs(kind, mi, classes, html_sink, delay=3):
